@@ -1,4 +1,5 @@
 """C06 — TCP makes progress: written bytes arrive and pending reads complete."""
+import re
 from props.common import ScenarioCheck
 from specs import progress
 import progress_gen as gen
@@ -18,9 +19,30 @@ def spec_c06(impl, scn):
 def nontrivial(impl):
     return sum(1 for l in impl if l.startswith("H ")) >= 4
 
+def known_trigger(kf, r, fails):
+    """F44 is identified by what happens, not by a scenario name: a progress clause fails AND some queue
+    holds less than a segment plus a SYN-ACK AND an endpoint's SYN-ACK and ALL of its payload packets
+    were put on the wire at one and the same instant (its first data went out with the SYN-ACK and it
+    never transmitted again). Any other stall of this property is still reported."""
+    if kf.get("id") != "F44": return False
+    if not any(c in ("delivered_eventually", "writer_not_stranded") for c, _ in (fails or [])): return False
+    scn = r.get("scn") or ""; trace = r.get("impl") or []
+    m = re.search(r"(?m)^mtu \* (\d+)", scn)
+    seg = (int(m.group(1)) if m else 1475) + 40
+    caps = [int(x) for x in re.findall(r"(?m)^hop \S+ queue .*cap=(\d+)", scn)]
+    if not any(0 < c < seg + 28 for c in caps): return False
+    syn = {}; first = {}; last = {}
+    for l in trace:
+        if l.startswith("P "):
+            d = dict(x.split("=", 1) for x in l.split() if "=" in x)
+            if d.get("type") == "synack": syn.setdefault(d.get("from"), d.get("t"))
+            if d.get("type") == "payload":
+                first.setdefault(d.get("from"), d.get("t")); last[d.get("from")] = d.get("t")
+    return any(first.get(f) == t and last.get(f) == t for f, t in syn.items())
+
 CHECK = ScenarioCheck("C06", ["SimVerif.Props.C06"], "kernel", gen.generate, spec_c06, nontrivial,
     "one connection whose sockets stay open; self-perpetuating writer and reader, the main sender being the connecting or (every other scenario) the accepted socket; routes of 1-3 queue hops each way with bandwidth 0 or 5 kB/s-50 MB/s, latency 0-500 ms, capacity unlimited or from exactly one full segment up to megabytes incl. receiver-side bottlenecks; path MTU 100-3000; transfers 1 B-2 MB with write chunks 1 B-1 MB and read buffers 1 B-64 kB; reverse transfer simultaneously (unlimited queues, bulk both ways) or afterwards; accept posted before or after the SYN; quick tier: 400 scenarios of at most 400 segments each, 80 % with finite queues, half of those sending >= 5 x the tightest forward capacity; besides the progress clauses at quiescence the monitor flags any write/read completion with an error on an established connection nobody closed (no_spurious_error) and connects/accepts that fail; non-trivial = >= 4 completions; distinct = distinct trace",
-    TRUSTED, ASSUME, spec_scn=True)
+    TRUSTED, ASSUME, spec_scn=True, known_trigger=known_trigger)
 
 def run(tier, seed, replay):
     return CHECK.run(tier, seed, replay)
